@@ -11,6 +11,7 @@
 // Direct oracles (implementation only):
 //   c06-whole-vs-segmented  the same bytes fed in one piece give the same events/messages/error
 //   c08-panic               Parse recovered from a panic (log line)
+//   c08-guessed-framing     a message the byte-at-a-time reading rejects is delivered when fed in one read
 //   c08-retained            retained bytes > max(ReadLimit, largest read of the connection so far)  (c08_retained_chain)
 //   c08-body                body held > MaxHTTPBodySize
 //   c08-after-error         events emitted by a Parse call that follows an error
@@ -66,10 +67,19 @@ func exec(e *lp.Exec) {
 			// exact extent of every completed message)
 			if len(whole) <= 4000 {
 				b := hx.NewSess(s.Client, s.MaxBody, s.Limit)
+				bErr := 0
 				for i := range whole {
 					if r := b.Feed(whole[i : i+1]); r.Errc != 0 {
+						bErr = r.Errc
 						break
 					}
+				}
+				// direct oracle C08: malformed framing is rejected, not guessed. The byte-at-a-time reading is the
+				// reference (one decision per byte, nothing to look ahead at): a message it rejects must not be delivered
+				// because more bytes happened to arrive in the same read. (ReadLimit off: its test depends on the reads.)
+				if s.Limit == 0 && bErr != 0 && len(w.R.Seen) > len(b.R.Seen) {
+					e.Oracle("c08-guessed-framing", "fed in one read: %d messages delivered, err=%d; byte by byte: err=%d after %d messages — %q",
+						len(w.R.Seen), r.Errc, bErr, len(b.R.Seen), trunc(string(whole), 200))
 				}
 				prev := 0
 				for k, end := range b.R.DoneAt {
